@@ -412,6 +412,7 @@ type FuncContract struct {
 	Requires  []Clause
 	Ensures   []Clause
 	Asserts   []Clause // checked at every return of the body (may mention locals); never assumed by callers
+	Assumes   []Clause // assumed at entry of the body without being a caller obligation (listed in the evidence)
 	Decreases *Clause
 	Loops     map[int]*LoopSpec
 	Inline    bool
@@ -466,10 +467,11 @@ type Contracts struct {
 	Ghosts []*GhostField
 	Files  []string
 	Assumes []string
+	FieldInv map[string]bool // "pkg.Type.field": the field is never nil in an allocated object
 }
 
 func newContracts() *Contracts {
-	return &Contracts{Funcs: map[string]*FuncContract{}, Preds: map[string]*PredDef{}, Specs: map[string]*SpecFunc{}}
+	return &Contracts{Funcs: map[string]*FuncContract{}, Preds: map[string]*PredDef{}, Specs: map[string]*SpecFunc{}, FieldInv: map[string]bool{}}
 }
 
 func splitLabel(s string) (label, rest string) {
@@ -537,6 +539,17 @@ func (c *Contracts) loadFile(path string, pkgName string) error {
 			}
 			cur = &FuncContract{Key: key, Loops: map[int]*LoopSpec{}, File: path}
 			c.Funcs[key] = cur
+		case "assume":
+			if cur == nil {
+				c.Assumes = append(c.Assumes, fmt.Sprintf("%s:%d: %s", path, j.line, rest))
+				continue
+			}
+			cl, err := mkClause(rest, j.line)
+			if err != nil {
+				return err
+			}
+			cur.Assumes = append(cur.Assumes, cl)
+			c.Assumes = append(c.Assumes, fmt.Sprintf("%s: %s", cur.Key, rest))
 		case "requires", "ensures", "decreases", "asserts":
 			if cur == nil {
 				return fmt.Errorf("%s:%d: clause outside func", path, j.line)
@@ -664,8 +677,13 @@ func (c *Contracts) loadFile(path string, pkgName string) error {
 			}
 			c.Ghosts = append(c.Ghosts, &GhostField{f[0], f[1], f[2]})
 			cur = nil
-		case "assume":
-			c.Assumes = append(c.Assumes, fmt.Sprintf("%s:%d: %s", path, j.line, rest))
+		case "fieldinv":
+			f := strings.Fields(rest)
+			if len(f) != 2 || f[1] != "nonnil" {
+				return fmt.Errorf("%s:%d: fieldinv <pkg.Type.field> nonnil", path, j.line)
+			}
+			c.FieldInv[f[0]] = true
+			cur = nil
 		default:
 			return fmt.Errorf("%s:%d: unknown contract directive %q", path, j.line, word)
 		}
